@@ -152,8 +152,14 @@ func mergeRefs(ab *cmdsPair, a, b *cmd) {
 			for _, b := range bl {
 				b.name = storeName
 			}
-		} else if _, found := ab.a.lookup[prefix][bName]; found && ab.b.isRaw {
-			errlog.Abort("Name clash for '%s %s' from raw", prefix, bName)
+		} else if ab.b.isRaw {
+			if _, found := ab.a.lookup[prefix][bName]; found {
+				errlog.Abort("Name clash for '%s %s' from raw", prefix, bName)
+			}
+			if isReferenced[refCmd] {
+				errlog.Abort("Must reference '%s %s' only once in raw",
+					prefix, bName)
+			}
 		}
 		isReferenced[refCmd] = true
 		refPair := *ab
